@@ -98,9 +98,9 @@ class VEvent:
 		return self.flag
 
 	# --- harness side (gated mode) ---
-	def release(self, n, timeout = 300.0):
+	def release(self, n, timeout = 300.0, alive = None):
 		""" Let the worker perform n ticks and wait until it is blocked again
-		    (or has exited).  Returns False on timeout. """
+		    (or has exited).  Returns False on timeout, or as soon as alive() says the worker thread is gone. """
 		import time as _t
 		with self.cond:
 			target = self.entered + n
@@ -110,6 +110,8 @@ class VEvent:
 			while self.entered < target and not self.flag:
 				left = end - _t.time()
 				if left <= 0:
+					return False
+				if alive is not None and not alive():
 					return False
 				self.cond.wait(min(left, 0.2))
 		return True
